@@ -339,6 +339,22 @@ impl DecompressorOxide {
         }
     }
 
+    /// Verification hook: read-only view of the automaton registers
+    /// (state id, num_bits, bit_buf, counter, dist, num_extra, finish, block_type).
+    #[cfg(miniz_oxide_verif)]
+    pub fn verif_state(&self) -> (u8, u32, u64, u32, u32, u8, u8, u8) {
+        (
+            self.state as u8,
+            self.num_bits,
+            self.bit_buf as u64,
+            self.counter,
+            self.dist,
+            self.num_extra,
+            self.finish,
+            self.block_type,
+        )
+    }
+
     // Get zlib header for tests
     // Only for tests for now, may provide a proper function for this for later.
     #[cfg(all(test, feature = "with-alloc"))]
